@@ -53,7 +53,7 @@ impl Pipeline {
 
             let output = stage.execute(current)?;
 
-            if stage.cacheable() {
+            if stage.cacheable() && output.cacheable() {
                 self.cache.insert(
                     cache_key,
                     CachedOutput {
@@ -109,7 +109,7 @@ impl Pipeline {
 
             let output = stage.execute(current)?;
 
-            if stage.cacheable() {
+            if stage.cacheable() && output.cacheable() {
                 self.cache.insert(
                     cache_key,
                     CachedOutput {
